@@ -154,6 +154,9 @@ structure Guard where
   isStatic : Bool           -- `'@staticmethod' in source`
   nDecorators : Nat         -- number of `@` before the first `def`
   marker : Bool             -- `'@pedantic' in source or '@require_kwargs' in source`
+  isMethodObj : Bool := false   -- `inspect.ismethod(func)`: a bound method object was handed to the decorator (`is_class_method`)
+  notFunction : Bool := false   -- `not isinstance(func, (FunctionType, MethodType))`: a staticmethod / classmethod object was handed
+                                -- to the decorator (`@require_kwargs` above `@staticmethod`); `DecoratedFunction(func)` raises
 deriving DecidableEq, Repr
 
 /-- `should_have_kwargs` for a function that is no property setter and whose name is no dunder -/
@@ -165,6 +168,18 @@ def Guard.argsWithoutSelf (g : Guard) (n : Nat) : Nat :=
 
 /-- `assert_uses_kwargs` raises -/
 def Guard.trips (g : Guard) (a : Args) : Bool := g.shouldHaveKwargs && decide (g.argsWithoutSelf a.pos.length > 0)
+
+/-- what the statements `DecoratedFunction(func)` … `call.assert_uses_kwargs()` raise, if anything.  The constructor runs two pure
+    statements before the guard; nothing observable happens in between, so its exception is raised by the guard statement here. -/
+def Guard.rejects (g : Guard) (a : Args) : Option String :=
+  if g.notFunction then some "PedanticTypeCheckException"
+  -- `FunctionCall.__init__`: `self._instance = self.args[0] if self.func.is_instance_method else None` — a callable whose first
+  -- parameter is spelled `self` called without any positional argument (a BOUND method handed to the decorator, called by keyword)
+  else if g.selfFirst && a.pos.isEmpty then some "IndexError"
+  else if g.trips a then some "PedanticCallWithArgsException" else none
+
+/-- `FunctionCall._get_return_value` calls `func(**kwargs)` for these and `func(*args, **kwargs)` otherwise -/
+def Guard.staticOrClassMethod (g : Guard) : Bool := g.isStatic || g.isMethodObj
 
 /-! ### Classes as `overrides` sees them (environment model: CPython's attribute lookup on a class object)
 
@@ -371,6 +386,12 @@ def evalCond (fr : Frame) (l : Locals) : Cond → Option Bool
     | some false => evalCond fr l b
     | r => r
 
+/-- the keyword arguments of a call site -/
+def mkKw (fr : Frame) (l : Locals) : KwSrc → List (Nat × Nat)
+  | .kwargs => fr.args.kw
+  | .renamed => l.renamed
+  | .empty => []
+
 def mkArgs (fr : Frame) (l : Locals) : PosSrc → KwSrc → Args
   | .args, .kwargs => fr.args
   | .args, .renamed => { pos := fr.args.pos, kw := l.renamed }
@@ -378,6 +399,9 @@ def mkArgs (fr : Frame) (l : Locals) : PosSrc → KwSrc → Args
   | .empty, .kwargs => { pos := [], kw := fr.args.kw }
   | .empty, .renamed => { pos := [], kw := l.renamed }
   | .empty, .empty => { pos := [], kw := [] }
+  -- `FunctionCall._get_return_value`: `func(**kwargs)` for what is classified as a static / class method, else `func(*args, **kwargs)`
+  | .argsUnlessStaticOrClassMethod, kw =>
+    { pos := if fr.p.guard.staticOrClassMethod then [] else fr.args.pos, kw := mkKw fr l kw }
 
 def keyOf (d : List (Nat × Nat)) (k : Nat) : KeyExpr → Option Nat
   | .same => some k
@@ -457,7 +481,9 @@ def exec (fr : Frame) (s : Stmt) (l : Locals) (w : World) : Step :=
     | none => (.done (.exc (.lib "KeyError")), [], w)
     | some d => (.next { l with renamed := d }, [], w)
   | .kwargsGuard =>
-    if fr.p.guard.trips fr.args then (.done (.exc (.lib "PedanticCallWithArgsException")), [], w) else (.next l, [], w)
+    match fr.p.guard.rejects fr.args with
+    | some cls => (.done (.exc (.lib cls)), [], w)
+    | none => (.next l, [], w)
   | .ret e =>
     match evalExpr fr l e with
     | none => unbound w
@@ -572,6 +598,35 @@ def counterAfter (init : Int) (layer : Nat) : List Out → Int
   | [] => init
   | o :: r => counterAfter (init + sumIncr layer o.2.1) layer r
 
+/-! ### The `num_calls` entry of a wrapper's `__dict__`
+
+`functools.update_wrapper` (behind `@wraps`) copies the `__dict__` of the decorated callable onto the wrapper — a `num_calls` entry
+that callable carries included (an already counted function, or a wraps-based wrapper that copied one earlier).  `count_calls` also
+sets `wrapper.num_calls = k`.  Which of the two happens last is read from the source (`counterInitAfterCopy`). -/
+
+/-- does the wrapper the decorator returns for a (non-)coroutine function receive the metadata copy -/
+def copiesDict (d : Deco) (coro : Bool) : Bool :=
+  match select d coro with
+  | .wrapper w => w.wraps
+  | _ => false
+
+/-- `wrapper.__dict__.get('num_calls')` right after the decorator returned; `carried`: that entry of the decorated callable's
+    `__dict__` at that moment.  (`overrides` returns the callable itself: the entry stays what it is.) -/
+def attrAfterDecorate (d : Deco) (coro : Bool) (carried : Option Int) : Option Int :=
+  match select d coro with
+  | .identity => carried
+  | .missing => none
+  | .wrapper w =>
+    match d.counterInit with
+    | some k => if d.counterInitAfterCopy then some k else if w.wraps then some (carried.getD k) else some k
+    | none => if w.wraps then carried else none
+
+/-- the entry after a call: a decorator with a counter of its own moves it by its `incr` events, a copied entry is a snapshot -/
+def attrAfterCall (d : Deco) (depth : Nat) (evs : List Ev) (v : Option Int) : Option Int :=
+  match d.counterInit with
+  | some _ => v.map (· + sumIncr depth evs)
+  | none => v
+
 /-! ### First-order observations -/
 
 inductive RTag where
@@ -637,6 +692,6 @@ def decoratedMember (d : Deco) (p : Params) (k : MemberKind) (acc : Access) (sel
     | .static, .instance => .bound self (.deco d p raw)
     | .classm, .cls => .deco d p (.bound cls raw)
     | .classm, .instance => .bound self (.deco d p (.bound cls raw))
-  else .deco (⟨"", "", [], .unknown, none, none, none⟩) p raw      -- a different loop: not modelled
+  else .deco (⟨"", "", [], .unknown, none, none, true, none⟩) p raw      -- a different loop: not modelled
 
 end PedVerif.Utility
